@@ -12,7 +12,7 @@ def run(d):
         props |= set(MAP.get(f, ALL).split())
     p = subprocess.run(["/verif/tools_eval_harmless.sh", d] + sorted(props), capture_output=True, text=True)
     return d, sorted(files), p.stdout
-with ThreadPoolExecutor(3) as ex:
+with ThreadPoolExecutor(int(os.environ.get("HARM_JOBS", "3"))) as ex:
     for d, files, out in ex.map(run, dirs):
         print("==", d, files)
         print("\n".join(l for l in out.splitlines() if l.startswith(("NONZERO", "SUMMARY", "APPLY", "demo_rc"))))
